@@ -102,6 +102,9 @@ def rule_range(ctx, prop):
         f = prog.fn("stylua_lib", SFN)
         if not rep.anchor(f is not None, SFN, cfg):
             continue
+        # a range test moved into a private helper (`fn node_outside_range(..) -> bool`) is analysed in place
+        from inline import inlined, small_helper
+        f = inlined(prog, f, small_helper(prog, keep=r"^context::Context::(config|check_toggle_formatting)$"))
         try:
             res = Enumerator(f, track_cmp=True, summaries=False, max_paths=20000).run()
         except TooManyPaths:
